@@ -144,9 +144,8 @@ def run(rep: vlib.Reporter, tier: str, seed: int) -> None:
             what = "MULTIPROCESSING: " + ("result differs from SYNC" if m["status"] == "ok" else f"run {m['status']}: {str(m.get('exc'))[-160:]}")
             replay = {"kind": "mp", "spec": r["spec"]}
             if kf_mp_transform_non_arrow(plan):
-                dist["mp_kf_transform"] += 1
-                rep.finding("C06-mp-transform-from-non-arrow-source", what, replay)
-            elif planner_kf:
+                dist["mp_kf_transform"] += 1      # counted only: the finding is repaired (3c9d46c), the domain suppresses nothing
+            if planner_kf:
                 rep.finding("C06-planner-defect-domains", what, replay)
             elif i in conflicted_mp:
                 rep.finding("C06-unordered-conflicting-steps", what, replay)
